@@ -73,6 +73,12 @@ Example C18_peer_nontrivial :
    PDone true].
 Proof. vm_compute. reflexivity. Qed.
 
+(* an external Terminate() and a Done() that goes back to false: nothing is called afterwards *)
+Example C18_peer_stops :
+  snd (prun 1 (script_oracle [(true, false, []); (false, false, [])]) p_init [PTick; PTick; PChunk 3]) = [PDone true] /\
+  snd (prun 1 (script_oracle [(false, false, [])]) p_init [PTerminate; PTick; PChunk 3]) = [PTerminated].
+Proof. exact peer_witness_repaired. Qed.
+
 (* the window hypothesis of C18_peer_window_full is satisfiable *)
 Example C18_peer_window_full_nonvacuous :
   let s := fst (prun 2 (script_oracle [(false, true, []); (false, false, [])]) p_init [PChunk 5]) in
